@@ -37,12 +37,12 @@ func mapKeyedByRequestID(f *types.Var) bool {
 }
 
 func runC19(c *engine.Ctx) {
-	r1 := c.Rule("R1", "per-link counter increments are paired with list appends of the same link; finish decrements per list element and deletes at <= 0", 2)
-	r2 := c.Rule("R2", "every per-request map is deleted on every path of the finish operation", 5)
-	r3 := c.Rule("R3", "dedup tracker dropped exactly when no other request holds its key; tracker selected by the request's key", 2)
-	r4 := c.Rule("R4", "complete-full iff no missing-blocks entry (read before delete); missing entry created exactly when the block is absent", 2)
+	r1 := c.Rule("R1", "per-link counter increments are paired with list appends of the same link; finish decrements per list element and deletes at <= 0", 1)
+	r2 := c.Rule("R2", "every per-request map is deleted on every path of the finish operation", 3)
+	r3 := c.Rule("R3", "dedup tracker dropped exactly when no other request holds its key; tracker selected by the request's key", 1)
+	r4 := c.Rule("R4", "complete-full iff no missing-blocks entry (read before delete); missing entry created exactly when the block is absent", 1)
 	r5 := c.Rule("R5", "send decision = present AND past skip count (post-increment) AND reference count zero (pre-record)", 1)
-	r6 := c.Rule("R6", "tracker state only accessed under linkTrackerLk", 10)
+	r6 := c.Rule("R6", "tracker state only accessed under linkTrackerLk", 4)
 
 	ltType := c.P.NamedType("linktracker", "LinkTracker")
 	pltType := c.P.NamedType("responsemanager/responseassembler", "peerLinkTracker")
